@@ -2,7 +2,7 @@
 import os, sys, json, subprocess, shutil, tempfile, hashlib
 
 ROOT = os.path.dirname(os.path.dirname(os.path.dirname(os.path.abspath(__file__))))
-BINS = os.path.join(ROOT, "harness", "target-bins", "debug")
+BINS = os.environ.get("VERIF_TOOLS_BINS", os.path.join(ROOT, "harness", "target-bins", "debug"))   # override: scratch builds of seeded trees
 VH = os.path.join(ROOT, "harness", "target", "debug", "vh-tools")
 VDRIVER = os.environ.get("VDRIVER", os.path.join(ROOT, "lean", ".lake", "build", "bin", "vdriver"))
 M64 = (1 << 64) - 1
